@@ -218,12 +218,14 @@ def handleProg : Handler := fun input impl =>
             if IfsSameCond.Doc.callsE y || IfsSameCond.Doc.callsE x then
               some s!"[C04] ifs_same_cond false-positive: the repeated condition at tokens {showSp d.primary} performs a function call (inside a bracket index), the documentation excludes conditions that could have side effects"
             else none
-        let icMiss := ifs.filterMap fun (sp, c, _, elifs, _) =>
-          match elifs with
-          | e :: _ =>
-            if sameE c (elifCond e) && !IfsSameCond.Doc.callsE c && !(of "ifs_same_cond").any (fun d => d.primary == (elifCond e).span) then
-              some s!"[C04] ifs_same_cond missed-canonical: the first `elseif` of the `if` at tokens {showSp sp} repeats the `if` condition but is not reported" else none
-          | [] => none
+        -- every later condition of a chain that repeats an earlier side-effect-free one ("branches in if
+        -- blocks with equivalent conditions"), not only `if c … elseif c`
+        let icMiss := ifs.flatMap fun (sp, c, _, elifs, _) =>
+          let conds := c :: elifs.map elifCond
+          (conds.drop 1).filterMap fun y =>
+            let earlier := (orderedPairs conds).filter fun (x, y') => y'.span == y.span && sameE x y && !IfsSameCond.Doc.callsE x
+            if !earlier.isEmpty && !(of "ifs_same_cond").any (fun d => d.primary == y.span) then
+              some s!"[C04] ifs_same_cond missed-canonical: the condition at tokens {showSp y.span} of the `if` at tokens {showSp sp} repeats an earlier call-free condition of the chain but is not reported" else none
         -- ------------------------------------------------------------------ almost_swapped
         let single : Stmt → Option (Var × Expr) := fun s => match s with
           | .assign _ (.cons v .nil) (.cons e .nil) => some (v, e)
